@@ -16,7 +16,15 @@ Beyond the moderate grid (sections 1-3) the oracle is run
       second call gives the identical answer (Props/C10/Range.lean `call_*`);
   3b. the same through ModelIsotherm.loading_at / pressure_at / spreading_pressure_at with and without unit conversion;
   3c. whole-range evaluation ModelIsotherm.pressure(points, ...) / .loading(points, ...) against Model/ModelEval.lean
-      (linspace, bare model, linear conversion, strict limits).
+      (linspace, bare model, linear conversion, strict limits);
+  3d. model isotherms in every stored STATE (harness/pgv/c10state.py): real CoolProp adsorbates over their two-phase range, the
+      temperature number stored in K or in degrees Celsius (constructed so / reached by convert_temperature), every stored pressure
+      mode / unit, loading basis / unit (volume bases, fraction, percent), material basis, all 16 models, the model's own branch:
+      loading_at / pressure_at / spreading_pressure_at / pressure(points) / loading(points) with requests biased to pressure-mode changes
+      (p0(T)) and volume bases (densities at T) against (1) the bare model on the argument re-expressed with the SI tables of c01 and the
+      adsorbate's constants at the KELVIN temperature computed by the harness, (2) the Lean model of the state at Q (Model/ModelEval.lean
+      `kelvinOf`, `convP`, `loadingAtS`, `pressureAtS`, `wholePressureS`, `wholeLoadingS`; theorems Props/C10/State.lean), (3) the twin
+      isotherm stored in the other temperature unit.
 None of these depends on the translation or the proofs having succeeded (`ck.proof_ok`): when a tie breaks they are the search
 for a concrete failing input.
 """
@@ -287,6 +295,9 @@ def run(ck):
     # ------------------------------------------------------------------ 3b/3c. argument kinds and whole-range evaluation through ModelIsotherm
     through_isotherm(ck, pg, np, pd, models, w, PST, LST, MST, c03)
     whole_range(ck, pg, np, pd, models, w, PST, LST, MST, c03)
+    # ------------------------------------------------------------------ 3d. model isotherms in every stored STATE (temperature unit, real adsorbates)
+    from pgv import c10state
+    c10state.run(ck, pg, np, pd, models, c01, c02, c03, PST, LST, MST, _domain_values, _call, _capped)
     ck.cov["worst_relative_errors"] = {k: float(f"{v:.3g}") for k, v in sorted(worst.items())}
     ck.cov["rule"] = ("translator validation: every closed-form generated Float function vs its Python original on seeded parameter "
                       "vectors in bounds; property oracle: 16 models x seeded log-uniform parameter vectors x pressure grids in the validity "
@@ -295,9 +306,16 @@ def run(ck):
                       "wide sweep: declared parameter box (affinities 1e-9..1e9, capacities 1e-4..1e4) x reduced pressures 1e-18..1e4 / 0.999 of the pole: "
                       "round trips (conditioned tolerance near saturation), Henry limit per decade, exact rational reference (Lean, Q); "
                       "argument kinds: 3 methods x 17 kinds on the bare models and through ModelIsotherm.*_at (unchanged argument, element-wise = scalar, "
-                      "second call identical); whole-range ModelIsotherm.pressure()/loading() vs Model/ModelEval.lean")
+                      "second call identical); whole-range ModelIsotherm.pressure()/loading() vs Model/ModelEval.lean; "
+                      "model-isotherm STATES: real adsorbates (CoolProp, two-phase range) + stub x temperature stored in K / degrees Celsius (constructed / convert_temperature) x "
+                      "stored pressure mode/unit x loading basis/unit x material basis x 16 models x own branch: loading_at, pressure_at, spreading_pressure_at (scalar, 1-d), "
+                      "pressure(points), loading(points) with strict limits, requests biased to mode changes and volume bases, vs the SI oracle at the harness's kelvin temperature, "
+                      "the Lean model of the state (Q) and the twin stored in the other temperature unit")
     ck.assumptions += ["numerical inverses (scipy.optimize.root / minimize) are specified by residual, checked only where the library reports success",
-                       "IEEE rounding: tolerances per class of inverse (DESIGN section 7 table)"]
+                       "IEEE rounding: tolerances per class of inverse (DESIGN section 7 table)",
+                       "CoolProp values (saturation pressure, densities) enter as the constants returned by the real Adsorbate accessors at the kelvin temperature "
+                       "the harness computes from the stored number and unit of the state",
+                       "scipy.integrate.quad (spreading pressure of Toth, Jensen-Seaton, DR, DA): values of a quadrature that issued an IntegrationWarning are not compared"]
 
 
 # ====================================================================================================================
